@@ -580,17 +580,17 @@ func (r *FEngine) errExpiry(key []byte) int64 {
 
 // GetSpec describes one Get call.
 type GetSpec struct {
-	Tid     int       `json:"tid"`
-	Key     []byte    `json:"key"`
-	Skip    bool      `json:"skipRead"`
-	Cell    int64     `json:"ctxTTL"` // TTL carried by the caller's context
-	HasCell bool      `json:"hasTTLCell"`
-	Plan    BuildPlan `json:"plan"`
-	SleepBefore int64 `json:"sleepBefore,omitempty"`
-	ExpireAllBefore bool `json:"expireAllBefore,omitempty"` // the backend's ExpireAll is called right before this Get
-	Cancel  bool      `json:"cancelAfterReturn"`
-	Deadline int64    `json:"deadlineIn,omitempty"` // caller context carries a deadline this far in the future
-	Rewrite bool      `json:"rewriteKeyAfterReturn"`
+	Tid             int       `json:"tid"`
+	Key             []byte    `json:"key"`
+	Skip            bool      `json:"skipRead"`
+	Cell            int64     `json:"ctxTTL"` // TTL carried by the caller's context
+	HasCell         bool      `json:"hasTTLCell"`
+	Plan            BuildPlan `json:"plan"`
+	SleepBefore     int64     `json:"sleepBefore,omitempty"`
+	ExpireAllBefore bool      `json:"expireAllBefore,omitempty"` // the backend's ExpireAll is called right before this Get
+	Cancel          bool      `json:"cancelAfterReturn"`
+	Deadline        int64     `json:"deadlineIn,omitempty"` // caller context carries a deadline this far in the future
+	Rewrite         bool      `json:"rewriteKeyAfterReturn"`
 }
 
 type status struct {
